@@ -218,7 +218,15 @@ fn parse_and_use<V: Full>(kind: &str, s: &str, fx: &Fixtures, o: &mut Outcome) {
             }
         }
         "pw.local" | "pw.secret" => {
-            let in_budget = pw_budget_ok::<V>(s);
+            // the cost parameters as the LIBRARY reads them (its own params() accessor) decide whether the blob
+            // is inside the budget; the harness's strict decoder is consulted as well
+            let lib_params_ok = |b: Option<Vec<u8>>| b.map(|b| params_in_budget(V::VER, &b)).unwrap_or(true);
+            let lib_ok = if kind == "pw.local" {
+                lib_params_ok(PasswordWrappedKey::<V, Local>::from_str(s).ok().and_then(|p| p.params().ok()).map(|p| backends::params_to_bytes::<V>(&p)))
+            } else {
+                lib_params_ok(PasswordWrappedKey::<V, Secret>::from_str(s).ok().and_then(|p| p.params().ok()).map(|p| backends::params_to_bytes::<V>(&p)))
+            };
+            let in_budget = lib_ok && pw_budget_ok::<V>(s);
             if !in_budget {
                 o.count("skipped_over_budget", 1);
             }
@@ -519,10 +527,69 @@ fn key_bytes_sweep(prop: &mut Property, ctx: &Ctx) {
     }
 }
 
+/// unsealing authentic tokens whose claims sit at the edges of the representable range, with every built-in
+/// validator: Ok or Err, never a panic (the validator runs on authenticated but attacker-influenced claims)
+fn claims_validators(prop: &mut Property) {
+    use paseto_core::validation::Validate;
+    use paseto_json::jiff::Timestamp;
+    use paseto_json::{ForSubject, HasExpiry, RegisteredClaims, Time};
+    use std::time::Duration;
+    let times: Vec<Option<Timestamp>> = vec![None, Some(Timestamp::MIN), Some(Timestamp::MAX), Some(Timestamp::UNIX_EPOCH), Some(Timestamp::new(1_700_000_000, 0).unwrap()), Some(Timestamp::new(-377_705_023_201, 0).unwrap() ), Some(Timestamp::new(253_402_207_200, 999_999_999).unwrap())];
+    let nt = times.len() as u64;
+    let leeways: Vec<Duration> = vec![Duration::ZERO, Duration::from_nanos(1), Duration::from_secs(60), Duration::from_secs(86_400 * 365 * 100)];
+    prop.subs.push(
+        Sub::new("claims-validators", nt * nt * 6, "6 backends x exp, nbf in {absent, jiff MIN, jiff MAX, epoch, 2023, first and last representable second}: a sealed RegisteredClaims token is unsealed with Time::valid_at(2023), with_leeway {0, 1 ns, 60 s, 100 years} and HasExpiry / ForSubject chains: every call returns Ok or Err", move |idx, describe| {
+            let b = (idx / (nt * nt)) as usize;
+            let exp = times[((idx / nt) % nt) as usize];
+            let nbf = times[(idx % nt) as usize];
+            struct Run<'a>(Option<Timestamp>, Option<Timestamp>, &'a [Duration]);
+            impl Visitor for Run<'_> {
+                type Out = Result<u64, String>;
+                fn visit<V: Full>(self) -> Self::Out {
+                    let ks = keys::keyset::<V>(false, 0);
+                    let k = keys::local::<V>(&ks.locals[2].bytes);
+                    let c = RegisteredClaims { iss: None, sub: Some("s".into()), aud: None, exp: self.0, nbf: self.1, iat: self.0, jti: None };
+                    let now = Timestamp::new(1_700_000_000, 0).unwrap();
+                    subject(|| {
+                        let mut n = 0u64;
+                        let Ok(tok) = ops::seal_local_with::<V, _, _>(&k, c.clone(), (), b"", &Nonce::Lib).map(|t| t.to_string()) else { return 0 };
+                        for l in self.2 {
+                            if let Ok(t) = SealedToken::<V, Local, RegisteredClaims, ()>::from_str(&tok) {
+                                let _ = t.decrypt(&k, &Time::valid_at(now).with_leeway(*l).and_then(HasExpiry).and_then(ForSubject("s")));
+                                n += 1;
+                            }
+                        }
+                        if let Ok(t) = SealedToken::<V, Local, RegisteredClaims, ()>::from_str(&tok) {
+                            let _ = t.decrypt(&k, &Time::valid_at(now));
+                            n += 1;
+                        }
+                        n
+                    })
+                }
+            }
+            let mut o = Outcome::new();
+            if describe {
+                o.sample = Some(json!({"backend": backends::ALL[b], "exp": format!("{exp:?}"), "nbf": format!("{nbf:?}")}));
+            }
+            match dispatch(b, Run(exp, nbf, &leeways)) {
+                Ok(n) => {
+                    o.evals = n.max(1);
+                    o.nontrivial = n.max(1);
+                    o.class("returned");
+                }
+                Err(p) => o.violate(format!("{}/claims-validators/panic:{}", backends::ALL[b], panic_class(&p)), format!("unsealing an authentic token with exp {exp:?} / nbf {nbf:?} panicked in a validator: {p}"), json!({})),
+            }
+            o
+        })
+        .witness(&["returned"]),
+    );
+}
+
 pub fn build(ctx: &Ctx) -> Property {
     let mut p = Property::new("C04", "exploration");
     parser_sweep(&mut p, ctx);
     key_bytes_sweep(&mut p, ctx);
+    claims_validators(&mut p);
     p.assume("password-wrapped blobs are unwrapped only when their cost parameters are inside the stated budget (<= 64 MiB, <= 3 passes, parallelism <= 4 / <= 10000 iterations); the others are parsed, displayed and asked for params() only, and counted in skipped_over_budget");
     p.assume("oracle is 'returns Ok or Err': Rust panics are caught per call; an abort or fatal signal kills the run and is attributed by the driver's single-threaded trace re-run; invalid memory accesses inside the C libraries are additionally looked for by the valgrind pass of the thorough tier");
     p
